@@ -64,6 +64,9 @@ FIXED_LAYOUTS = {
     'ratioN': [(1, 4), (4, 8)],            # ratio equal to the finer point count
     'barely': [(60, 5), (300, 2)],         # coarser ring barely longer than the finer one
     'barely3': [(1, 6), (2, 4), (4, 3)],
+    'short2': [(1, 7), (2, 4)],             # coarser retention LESS than one coarser step longer than the finer one
+    'short3': [(1, 10), (4, 3), (12, 10)],
+    'short3b': [(2, 5), (6, 2), (12, 4)],
     'three': [(1, 8), (4, 8), (16, 4)],
     'four': [(3, 2), (6, 3), (18, 2), (36, 4)],
     'single5': [(1, 5)],
